@@ -931,6 +931,52 @@ func c19JudgeAgain(md string, o c19Opt, exp *c19Expect) string {
 	return c19SigList(c19Judge(exp, c19Observe(pk)))
 }
 
+// c19SameShapeDecoy is the Markdown with every ASCII letter and digit replaced by its successor: the same
+// constructs at the same byte positions, other text.
+func c19SameShapeDecoy(md string) string {
+	b := []byte(md)
+	for i, ch := range b {
+		switch {
+		case ch >= 'a' && ch < 'z', ch >= 'A' && ch < 'Z', ch >= '0' && ch < '9':
+			b[i] = ch + 1
+		case ch == 'z':
+			b[i] = 'a'
+		case ch == 'Z':
+			b[i] = 'A'
+		case ch == '9':
+			b[i] = '0'
+		}
+	}
+	return string(b)
+}
+
+const c19GenericDecoy = "# Decoy \\# one &amp; two\n\nprice \\* 2 &lt; 3 and `code`\n\n- item **b**\n  - nested\n\n1. first\n\n> quote\n\n| a | b |\n|:--|--:|\n| 1 | 2 |\n\n```\ncode\n```\n\n- [x] done\n"
+
+// c19JudgeReused converts two other documents and then the Markdown with ONE Converter object (the way
+// BatchConvert and any caller that keeps its converter do) and judges the last result.
+func c19JudgeReused(md string, o c19Opt, exp *c19Expect) string {
+	document.VerifResetGlobals()
+	var doc *document.Document
+	var err error
+	if p := guard(func() {
+		opts := o.mk()
+		conv := markdown.NewConverter(opts)
+		conv.ConvertString(c19GenericDecoy, opts)
+		conv.ConvertString(c19SameShapeDecoy(md), opts)
+		doc, err = conv.ConvertString(md, opts)
+	}); p != "" {
+		return "panic|" + panicClass(p)
+	}
+	if err != nil || doc == nil || doc.Body == nil {
+		return "error|ConvertString"
+	}
+	pk, viol := c19SaveCheck(doc)
+	if pk == nil || pk.Body() == nil || len(viol) > 0 {
+		return "save"
+	}
+	return c19SigList(c19Judge(exp, c19Observe(pk)))
+}
+
 // c19JudgeFile converts the Markdown through Converter.ConvertFile and judges the .docx it wrote.
 func c19JudgeFile(md string, o c19Opt, exp *c19Expect) string {
 	dir, err := os.MkdirTemp("", "vcheck-c19-")
@@ -1065,6 +1111,19 @@ func c19FidWorker(c *shard.Ctx) {
 						first := strings.SplitN(strings.Fields(sig)[0], "|", 2)[0]
 						c.P.Outcome("file-entry-differs")
 						report(rep.Violation{Sig: "entry-point|ConvertFile|" + first, Clause: "entry-point", What: "ConvertString/ConvertBytes is faithful, ConvertFile of the same Markdown is not: " + sig})
+					}
+				}
+			}
+			if len(vs) == 0 && o.isDefault() {
+				// the same Markdown as the third document of a Converter object that is kept and reused
+				c.P.Evals++
+				c.P.Transitions += 3
+				c.P.Add("fidelity_conversions_reused_converter", 1)
+				if sig := c19JudgeReused(md, o, exp); sig != "" {
+					if again := c19JudgeReused(md, o, exp); again == sig {
+						first := strings.SplitN(strings.Fields(sig)[0], "|", 2)[0]
+						c.P.Outcome("reused-converter-differs")
+						report(rep.Violation{Sig: "converter-reuse|" + first, Clause: "converter-reuse", What: fmt.Sprintf("a fresh Converter converts the Markdown faithfully; a Converter that has converted two other documents before (a generic one and %q) does not: %s", c19SameShapeDecoy(md), sig)})
 					}
 				}
 			}
